@@ -872,6 +872,8 @@ func (env *specEnv) callExpr(x *ast.CallExpr) Val {
 			return c.True
 		case "iteInt":
 			return c.Ite(env.evalBool(x.Args[0]), env.evalTerm(x.Args[1]), env.evalTerm(x.Args[2]))
+		case "iteStr":
+			return u.iteVal(env.evalBool(x.Args[0]), env.eval(x.Args[1]), env.eval(x.Args[2]))
 		case "typeIs":
 			iv := env.eval(x.Args[0]).(*IfaceV)
 			tn := constant.StringVal(info.Types[x.Args[1]].Value)
@@ -944,13 +946,14 @@ func (env *specEnv) inlineSpec(sd *specFunc, args []Val) Val {
 		}
 	}
 	ret, ok := sd.decl.Body.List[0].(*ast.ReturnStmt)
-	if !ok {
+	if !ok || sd.bc.FC.Rec {
 		// uninterpreted specification function: an SMT function of the (flattened) argument values
 		c := u.C
 		var ts []*Term
 		var ss []Sort
 		add := func(t *Term) { ts = append(ts, t); ss = append(ss, t.S) }
-		for _, a := range args {
+		var flat func(a Val)
+		flat = func(a Val) {
 			switch x := a.(type) {
 			case *Term:
 				add(x)
@@ -961,17 +964,64 @@ func (env *specEnv) inlineSpec(sd *specFunc, args []Val) Val {
 			case *IfaceV:
 				add(x.Tag)
 				add(x.Ptr)
+			case *StructV:
+				for _, f := range x.F {
+					flat(f)
+				}
+			case *FuncV:
+				add(u.funcTerm(x))
 			default:
-				panic("uninterpreted spec function: unsupported argument")
+				panic(fmt.Sprintf("uninterpreted spec function: unsupported argument %T", a))
 			}
 		}
-		rt := sd.bc.Sig.Results().At(0).Type()
-		_, rs, ok := scalarKind(rt)
-		if !ok {
-			panic("uninterpreted spec function must return a scalar")
+		for _, a := range args {
+			flat(a)
 		}
-		name := c.DeclareUF("spec_"+sd.decl.Name.Name, ss, rs)
-		return c.App(name, rs, ts...)
+		rt := sd.bc.Sig.Results().At(0).Type()
+		var res Val
+		if isString(rt) {
+			// a string-valued function: three functions giving the header of the result
+			nm := "spec_" + sd.decl.Name.Name
+			sv := &SliceV{Str: true,
+				Base: c.App(c.DeclareUF(nm+".base", ss, SAddr), SAddr, ts...),
+				Off:  c.App(c.DeclareUF(nm+".off", ss, BV(64)), BV(64), ts...),
+				Len:  c.App(c.DeclareUF(nm+".len", ss, BV(64)), BV(64), ts...)}
+			sv.Cap = sv.Len
+			u.assumeSliceWF(nil, sv)
+			res = sv
+		} else {
+			_, rs, ok := scalarKind(rt)
+			if !ok {
+				panic("uninterpreted spec function must return a scalar or a string")
+			}
+			name := c.DeclareUF("spec_"+sd.decl.Name.Name, ss, rs)
+			res = c.App(name, rs, ts...)
+		}
+		if sd.bc.FC.Rec {
+			// recursive definition: the application is unfolded once (definitional instance f(args) == body[args]);
+			// applications inside the body are unfolded while fuel remains. The body is evaluated over the entry
+			// memory, so f is a function of its arguments (and of the immutable entry state) only.
+			if u.recFuel == nil {
+				u.recFuel = map[*specFunc]int{}
+			}
+			if u.recFuel[sd] < 2 {
+				u.recFuel[sd]++
+				u.Trusted["recursive spec function "+sd.decl.Name.Name+": definitional unfoldings assumed (well-foundedness of the definition is not checked)"] = true
+				bsub := *sub
+				bsub.st = &State{pc: c.True, cells: map[*ssa.Alloc]Val{}, mems: map[string]*Mem{}}
+				bsub.old = nil
+				bv := bsub.eval(ret.Results[0])
+				u.recFuel[sd]--
+				switch r := res.(type) {
+				case *Term:
+					u.assumeGlobal(c.Eq(r, bv.(*Term)))
+				case *SliceV:
+					b := bv.(*SliceV)
+					u.assumeGlobal(c.And(c.Eq(r.Base, b.Base), c.Eq(r.Off, b.Off), c.Eq(r.Len, b.Len)))
+				}
+			}
+		}
+		return res
 	}
 	return sub.eval(ret.Results[0])
 }
@@ -1053,6 +1103,33 @@ func (env *specEnv) region(items []ast.Expr, all bool) *Region {
 					continue
 				case "mapAt":
 					r.addCell(u, env.mapCell(call.Args[0], call.Args[1]), types.NewInterfaceType(nil, nil))
+					continue
+				case "anyElems": // the elements of EVERY array with the element type of the given slice (a type-based over-approximation)
+					var et types.Type
+					switch t := env.typeOf(call.Args[0]).Underlying().(type) {
+					case *types.Slice:
+						et = t.Elem()
+					default:
+						panic("anyElems needs a slice-typed argument")
+					}
+					for _, lf := range u.leaves(et, nil) {
+						if lf.kind == "array" {
+							panic("anyElems over nested arrays")
+						}
+						path := lf.path
+						r.add(lf.kind, func(x *Term) *Term {
+							cond := c.True
+							cur := x
+							for k := len(path) - 1; k >= 0; k-- {
+								cond = c.And(cond, c.FldIdIs(cur, path[k]))
+								if cond.IsFalse() {
+									return cond
+								}
+								cur = c.FldBase(cur)
+							}
+							return c.And(cond, c.IsIdx(cur))
+						})
+					}
 					continue
 				case "ghostAll": // the ghost field of that name on every object
 					fid := env.ghostField(call.Args[0])
